@@ -279,3 +279,39 @@ def dag_spec(draw, *, min_nodes: int = 1, max_nodes: int = 8, types=None, fail_m
         pre = sorted(set(draw(st.lists(st.integers(0, n - 1), max_size=n))))
     schedule = draw(st.lists(st.integers(0, 7), max_size=schedule_len))
     return {'nodes': nodes, 'requested': req, 'lab': lab, 'pre_cached': pre, 'schedule': schedule}
+
+
+@st.composite
+def fanin_spec(draw, backend: str, fail_modes=('raise:ValueError', 'kill9'), max_leaves: int = 4):
+    """Focused shape for the expensive backends: 2-4 leaves (some failing) read by one or two strict-reader parents, the leaves
+    referenced in a generated order/nesting - what exercises the hand-over of dependency results to a child process."""
+    k = draw(st.integers(2, max_leaves))
+    nodes = []
+    n_fail = 0
+    for i in range(k):
+        mode = 'ok'
+        if draw(st.integers(0, 2)) == 0:
+            mode = draw(st.sampled_from(list(fail_modes)))
+            n_fail += 1
+        nodes.append({'id': i, 'type': draw(st.sampled_from(['NN', 'N2', 'Z'])), 'name': f'n{i}', 'mode': mode, 'read': True,
+                      'payload': draw(st.integers(0, 3)), 'deps': {'s': None}})
+    parents = draw(st.integers(1, 2))
+    for p in range(parents):
+        order = draw(st.permutations(list(range(k))))
+        keep = draw(st.integers(2, k))
+        refs = [{'ref': j, 'fresh': draw(st.integers(0, 3)) == 0} for j in order[:keep]]
+        form = draw(st.integers(0, 2))
+        if form == 0:
+            sh = {'list': refs}
+        elif form == 1:
+            sh = {'dict': {f'k{i}': r for i, r in enumerate(refs)}}
+        else:
+            sh = {'tuple': [refs[0], {'list': refs[1:]}]}
+        nodes.append({'id': k + p, 'type': draw(st.sampled_from(['NN', 'N1'])), 'name': f'n{k + p}', 'mode': 'ok',
+                      'read': draw(st.integers(0, 4)) > 0, 'payload': None, 'deps': sh})
+    req = [{'ref': k + p, 'fresh': False} for p in range(parents)]
+    if draw(st.booleans()):
+        req.append({'ref': draw(st.integers(0, k - 1)), 'fresh': False})
+    lab = {'backend': backend, 'max_workers': draw(st.sampled_from([1, 2, None])), 'continue_on_failure': True, 'bust_cache': False,
+           'storage': 'local', 'displays': False, 'context': {}}
+    return {'nodes': nodes, 'requested': req, 'lab': lab, 'pre_cached': [], 'schedule': draw(st.lists(st.integers(0, 7), max_size=8))}
